@@ -8,5 +8,5 @@ D=$(mktemp -d /tmp/verif-tlc.XXXXXX)
 trap 'rm -rf "$D"' EXIT
 cp "$SPEC_DIR"/*.tla "$SPEC_DIR"/*.cfg "$D"/ 2>/dev/null
 cd "$D" || exit 2
-timeout "$T" java -XX:+UseParallelGC ${TLC_JAVA_OPTS:-} -cp /opt/veriftools/tla/tla2tools.jar:/opt/veriftools/tla/CommunityModules-deps.jar tlc2.TLC -metadir "$D/md" -config "$CFG" "$@" "$MOD" 2>&1 | grep -v -e '^Parsing file' -e '^Semantic processing' -e '^Linting of module' -e '^$'
+timeout "$T" java -Djava.io.tmpdir="$D" -XX:+UseParallelGC ${TLC_JAVA_OPTS:-} -cp /opt/veriftools/tla/tla2tools.jar:/opt/veriftools/tla/CommunityModules-deps.jar tlc2.TLC -metadir "$D/md" -config "$CFG" "$@" "$MOD" 2>&1 | grep -v -e '^Parsing file' -e '^Semantic processing' -e '^Linting of module' -e '^$'
 exit ${PIPESTATUS[0]}
